@@ -17,6 +17,7 @@ import (
 
 	"verif/core"
 
+	wire "github.com/dappledger/AnnChain/gemmill/go-wire"
 	glog "github.com/dappledger/AnnChain/gemmill/modules/go-log"
 	"go.uber.org/zap"
 )
@@ -94,6 +95,18 @@ func (c *checker) replay(k kase) {
 		}
 		if k.RLP.Target == "raw.Split/CountValues" {
 			c.rawDiff(in)
+			return
+		}
+		if k.RLP.Target == "Stream" {
+			c.streamDiff(in, k.RLP.Mut, k.RLP.Value)
+			return
+		}
+		if k.RLP.Kind == "bomb" {
+			t, diff := rlpTargetByName(k.RLP.Target)
+			if t == nil {
+				core.Fatal("replay: unknown rlp target %s", k.RLP.Target)
+			}
+			c.rlpBomb(rlpBombCase{t: t, in: in, mut: k.RLP.Mut, shape: k.RLP.Shape, diff: diff}, true)
 			return
 		}
 		for _, t := range rlpTargets() {
@@ -186,12 +199,16 @@ func main() {
 	}
 	nRoots = len(allRoots)
 	perRoot := make([][]*gridValue, nRoots)
+	perRootLong := make([][]gridJob, nRoots)
 	perRootUns := make([][]string, nRoots)
 	core.Par(nRoots, func(i int) {
-		perRootUns[i] = allRoots[i].grid(func(g *gridValue) { perRoot[i] = append(perRoot[i], g) })
+		perRootUns[i] = allRoots[i].grid(func(g *gridValue) { perRoot[i] = append(perRoot[i], g) },
+			func(j gridJob) { perRootLong[i] = append(perRootLong[i], j) })
 	})
+	var longJobs []gridJob
 	for i := range perRoot {
 		vals = append(vals, perRoot[i]...)
+		longJobs = append(longJobs, perRootLong[i]...)
 		for _, u := range perRootUns[i] {
 			unsupported[allRoots[i].Name+u] = true
 		}
@@ -214,6 +231,25 @@ func main() {
 		}
 	})
 	lap("roundtrip")
+	// long slices (lengths around the decoder's chunk size, nil slots): built,
+	// round-tripped and dropped one at a time
+	var longElems int64
+	longKinds := newTally()
+	core.Par(len(longJobs), func(i int) {
+		g := longJobs[i].build()
+		if !g.Long {
+			core.Fatal("generator: %s is not a long slice", descString(g.Desc))
+		}
+		atomic.AddInt64(&longElems, int64(walkTo(g.V, g.Desc.Path).Len()))
+		longKinds.Add(g.ElemKind)
+		c.roundTrip(g, "bin")
+		c.roundTrip(g, "json")
+		atomic.AddInt64(&rtCases, 2)
+		if i%97 == 0 {
+			c.samples.Add(kase{Phase: "roundtrip", Value: &g.Desc, Codec: "bin"})
+		}
+	})
+	lap("roundtrip-long-slices")
 
 	// ---------------------------------------------------------- phase 2a: every byte string of length <= 2
 	before := atomic.LoadInt64(&c.evals)
@@ -353,6 +389,9 @@ func main() {
 	maxLen := run.Pick(2, 3)
 	rlpInputs := c.rlpExhaustive(maxLen)
 	lap("rlp-exhaustive")
+	// length bombs, single-threaded (allocation is measured per decode)
+	rlpBombInputs := c.rlpBombs()
+	lap("rlp-bombs(serial)")
 	type rv struct {
 		r *rlpRoot
 		g *gridValue
@@ -360,7 +399,7 @@ func main() {
 	var rvals []rv
 	for _, r := range rlpRoots() {
 		rr := r
-		rr.spec.grid(func(g *gridValue) { rvals = append(rvals, rv{rr, g}) })
+		rr.spec.grid(func(g *gridValue) { rvals = append(rvals, rv{rr, g}) }, nil)
 	}
 	before = atomic.LoadInt64(&c.evals)
 	core.Par(len(rvals), func(i int) {
@@ -407,17 +446,21 @@ func main() {
 	run.Finish(core.Coverage{
 		"evaluations":         int(atomic.LoadInt64(&c.evals)),
 		"distinct_nontrivial": c.classes.Len(),
-		"rule": "(1) every registered concrete type of the wire interfaces ConsensusMessage, WALMessage (inside TimedWALMessage, with every ConsensusMessage inside msgInfo), BlockchainMessage, MempoolMessage, PexMessage, trace Message, Signature, PubKey (found by walking go-wire's registry at run time) and the top-level types Block, Header, Data, Commit, Vote, Proposal, PartSetHeader, Part, BlockID, Validator, ValidatorSet, BlockMeta, GenesisDoc, State, NodeInfo: values generated by reflection = 4 bases (A, B, all-min, all-max) + around A and B every leaf replaced by every alternative, one leaf at a time (signed ints {min,min+1,-1,0,1,±2^53,2^53+1,max}, unsigned {0,1,2^53,2^53+1,2^63,max} (bytes also 2,0x7f,0x80), strings {empty, a, quote+backslash, unicode, a\",\"b, <&>+control}, byte slices {len 0,1,32,1025; nil and empty are one value}, byte arrays {zero,pattern,ff}, times {zero (JSON only: outside the int64-nanosecond domain the binary codec documents), epoch, fixed now, latest and earliest millisecond-aligned int64-nanosecond instants, 1 ms before epoch; all millisecond-aligned = documented precision}, pointers {nil,set}, registered interfaces {nil, each concrete type}, slices len {0,1,3}); each value through wire.BinaryBytes/ReadBinary (limit 0 and limit = length) and wire.JSONBytes/ReadJSON; oracle: decoded value equals the original field by field over the fields the codec handles, re-encoding equal, two encodings equal, no panic. " +
+		"rule": strings.NewReplacer("{C}", fmt.Sprint(wire.ReadSliceChunkSize), "{MOD}", fmt.Sprint(nilModulus())).Replace("(1) every registered concrete type of the wire interfaces ConsensusMessage, WALMessage (inside TimedWALMessage, with every ConsensusMessage inside msgInfo), BlockchainMessage, MempoolMessage, PexMessage, trace Message, Signature, PubKey (found by walking go-wire's registry at run time) and the top-level types Block, Header, Data, Commit, Vote, Proposal, PartSetHeader, Part, BlockID, Validator, ValidatorSet, BlockMeta, GenesisDoc, State, NodeInfo: values generated by reflection = 4 bases (A, B, all-min, all-max) + around A and B every leaf replaced by every alternative, one leaf at a time (signed ints {min,min+1,-1,0,1,±2^53,2^53+1,max}, unsigned {0,1,2^53,2^53+1,2^63,max} (bytes also 2,0x7f,0x80), strings {empty, a, quote+backslash, unicode, a\",\"b, <&>+control}, byte slices {len 0,1,32,1025; nil and empty are one value}, byte arrays {zero,pattern,ff}, times {zero (JSON only: outside the int64-nanosecond domain the binary codec documents), epoch, fixed now, latest and earliest millisecond-aligned int64-nanosecond instants, 1 ms before epoch; all millisecond-aligned = documented precision}, pointers {nil,set}, registered interfaces {nil, each concrete type}, slices len {0,1,3}; every slice with non-byte elements (pointer, struct with interface fields, byte-slice, string, integer elements: Commit.Precommits, ValidatorSet.Validators, GenesisDoc.Validators, Data.Txs, pex addresses, bit-array words, ...) also with the lengths C-1, C, C+1, 2C-1, 2C, 2C+1, 3C+1 around the chunk size C = wire.ReadSliceChunkSize = {C} in which the binary decoder reads element slices, every element generated from its own path (pairwise distinguishable) and with nil slots: element i is a nil pointer if i mod {MOD} = 1, pointers and interfaces below a non-nil element are nil if i mod {MOD} = 2 (period coprime to C, so slots j and j+C differ in phase); these long values are built, checked and dropped one at a time and take part in the round trip only); each value through wire.BinaryBytes/ReadBinary (limit 0 and limit = length) and wire.JSONBytes/ReadJSON; oracle: decoded value equals the original field by field over the fields the codec handles, re-encoding equal, two encodings equal, no panic. " +
 			"(2) every byte string of length <= 2 into every one of these top-level types through ReadBinary (limits 0,1,len-1,len,len+1), ReadBinaryBytes, ReadJSON and the five reactors' DecodeMessage (pbft, blockchain, mempool, pex, trace); every truncation and every single-byte substitution {00,01,7f,80,ff} of grid encodings of at most 2048 bytes (quick: the 4 bases per root; thorough: also every grid value whose varied leaf can change the structure of the encoding, i.e. all but fixed-width integers, bools, byte arrays and times, those with limits {1,len}) through ReadBinary with limits {1,len-1,len,len+1} and DecodeMessage, and of JSON encodings through ReadJSON plus every JSON node replaced by values of every other JSON type; 2^62 and 2^31 length prefixes at every length-prefix position of the bases (thorough: also of the structural variants); oracle: error or value, never a panic, n <= limit or error, and (single-threaded phase) TotalAlloc delta of one decode <= 64*limit + 1 MiB. Limit 0 means 'no limit' in go-wire: mutated inputs and the 2^31 bomb are not offered with limit 0 (allocation is unbounded by the caller's choice and the Go runtime aborts the process for lengths of 2^33..2^48), the 2^62 bomb is (it cannot allocate, only panic). " +
-			"(3) all ordered pairs over the vote grid and the proposal grid and across them (chain ids incl. JSON-breaking ones, heights {0,1,2^32,2^63-1}, rounds {0,1}, types {prevote,precommit}, block ids {nil, A, A' differing in the last byte of the hash / parts total / last byte of the parts hash}, POL rounds {-1,0,1}, block parts headers): equal sign-bytes imply equal chain id, height, round, type, block id (and POL round / parts header). " +
-			"RLP: every byte string of length <= 2 (quick) / <= 3 (thorough) decoded by in-tree eth/rlp and upstream go-ethereum v1.8.27 rlp into RawValue, uint64, []byte, [][]byte, a plain struct, *big.Int, a struct with rlp:\"nil\"+rlp:\"tail\" (all lengths) and [3]byte, interface{}, string, bool (lengths <= 2), plus raw.Split/SplitList/SplitString/CountValues: same accept/reject, same value, same re-encoding; value grid (same construction, RLP domain: unsigned ints, non-nil non-negative big.Int, byte lengths {0,1(<0x80),1(>=0x80),2,55,56,57,255,256,1025}) of chain/types.KV, eth Header, the transaction field list and the consensus receipt field list: round trip, determinism, byte-equal with upstream, the real types.Transaction / types.Receipt / NewTransaction agree with the field lists; every truncation and every substitution {00,01,7f,80,ff,±1} at every header byte and first/last payload byte of those encodings decoded by both (quick: encodings up to 700 bytes and the bases). distinct_nontrivial = number of distinct (phase, target, entry point, outcome / leaf kind + shape) classes observed",
+			"(3) all ordered pairs over the vote grid and the proposal grid and across them (chain ids incl. JSON-breaking ones, heights {0,1,2^32,2^63-1}, rounds {0,1}, types {prevote,precommit}, block ids {all 8 combinations of empty / non-empty hash, parts total, parts hash (among them nil, the full id A, and ids with an empty hash and a non-zero parts header), A' differing from A in the last byte of the hash / parts total / last byte of the parts hash; thorough: further one-component variants}, POL rounds {-1,0,1}, POL block ids = those 11, block parts headers {all 4 combinations of zero / non-zero total and hash, one-component variants}): equal sign-bytes imply equal chain id, height, round, type, block id (and POL round / parts header). " +
+			"RLP: every byte string of length <= 2 (quick) / <= 3 (thorough) decoded by in-tree eth/rlp and upstream go-ethereum v1.8.27 rlp into RawValue, uint64, []byte, [][]byte, a plain struct, *big.Int, a struct with rlp:\"nil\"+rlp:\"tail\" (all lengths) and [3]byte, interface{}, string, bool (lengths <= 2), plus raw.Split/SplitList/SplitString/CountValues: same accept/reject, same value, same re-encoding; each of those inputs also walked depth-first through the rlp.Stream API (Kind, List, ListEnd, Bytes) of both implementations: same kinds, sizes, contents and an error at the same call; length bombs, single-threaded: a long-form header declaring 2^64-1, 2^63, 2^48+1 (can only panic) or 2^26 bytes, as a string and as a list, bare at top level / in a list / in a list in a list into every target, and in place of the header of every item at every depth of the base encodings of the grid roots (into the root type and the real Transaction / Receipt): no panic, TotalAlloc delta of the decode <= 64*len(input) + 1 MiB, same accept/reject as upstream; value grid (same construction, RLP domain: unsigned ints, non-nil non-negative big.Int, byte lengths {0,1(<0x80),1(>=0x80),2,55,56,57,255,256,1025}) of chain/types.KV, eth Header, the transaction field list and the consensus receipt field list: round trip, determinism, byte-equal with upstream, the real types.Transaction / types.Receipt / NewTransaction agree with the field lists; every truncation and every substitution {00,01,7f,80,ff,±1} at every header byte and first/last payload byte of those encodings decoded by both (quick: encodings up to 700 bytes and the bases), each first walked through rlp.Stream (an input on which the in-tree stream departs from upstream is reported and not handed to the typed decoders; header substitutions are not offered at all to a decoder that failed a bomb or a stream walk, since it would allocate whatever the substituted header declares). distinct_nontrivial = number of distinct (phase, target, entry point, outcome / leaf kind + shape) classes observed"),
 		"samples":                   c.samples.List(),
-		"exhaustive":                !unsafeDecoder,
+		"exhaustive":                !unsafeDecoder && atomic.LoadInt64(&c.rlpUnsafe) == 0,
 		"tier_bounds":               map[string]interface{}{"rlp_max_len": maxLen, "mutated_values": map[string]int64{"binary": mutBin, "json": mutJSON, "skipped_longer_than_cap": mutSkipped}, "mutation_length_cap": mutCap, "thorough": thorough},
 		"families":                  famNames,
 		"wire_roots":                nRoots,
 		"grid_values":               len(vals),
 		"roundtrip_cases":           rtCases,
+		"long_slice_values":         len(longJobs),
+		"long_slice_lengths":        sliceLens(false)[shortSliceLens:],
+		"long_slice_elements":       atomic.LoadInt64(&longElems),
+		"long_slice_element_kinds":  longKinds.Map(),
 		"short_string_decodes":      shortEvals,
 		"mutated_input_decodes":     mutEvals,
 		"bomb_inputs":               bombInputs,
@@ -428,6 +471,8 @@ func main() {
 		"signbytes_distinct":        sbDistinct,
 		"rlp_exhaustive_inputs":     rlpInputs,
 		"rlp_exhaustive_targets":    len(rlpTargets()) + 1,
+		"rlp_bomb_inputs":           rlpBombInputs,
+		"rlp_memory_violations":     atomic.LoadInt64(&c.rlpMemViolations),
 		"rlp_grid_values":           len(rvals),
 		"rlp_grid_and_mutant_evals": rlpGridEvals,
 		"phase_seconds":             phaseT,
@@ -438,6 +483,7 @@ func main() {
 		"times are millisecond-aligned instants within the int64-nanosecond range (go-wire/time.go: 'nanoseconds since epoch but with millisecond precision'); the zero time.Time is offered to JSON only",
 		"nil and empty slices are one value (the codecs do not distinguish them); unexported and json:\"-\" fields are not part of the encoded value",
 		"the allocation clause is evaluated for limits > 0; limit 0 is go-wire's documented 'no limit'",
+		"for rlp.DecodeBytes the caller's limit is the length of the input (DecodeBytes hands it to the stream as input limit); the allocation clause is evaluated as 64*len(input) + 1 MiB",
 		"every case runs on the real code (wire.BinaryBytes/ReadBinary/ReadBinaryBytes/JSONBytes/ReadJSON, the reactors' DecodeMessage, types.SignBytes, rlp.EncodeToBytes/DecodeBytes); the only model is the field-by-field comparison",
 	})
 }
